@@ -7,7 +7,7 @@ def stepLen (cs : List Char) : Nat := max (lexOne cs).len 1
 
 /-- diagnostics of one step at position `pos` -/
 def stepErrs (pos : Nat) (cs : List Char) : List LexError :=
-  (if (lexOne cs).unrecognized then [LexError.unrecognized pos] else []) ++
+  (if (lexOne cs).unrecognized then [LexError.unrecognized pos (pos + 1)] else []) ++
     (lexOne cs).badEscapes.map (fun (lo, hi) => LexError.badEscape (pos + lo) (pos + hi))
 
 theorem tokenizeAux_cons (f pos : Nat) (c : Char) (rest : List Char) :
@@ -26,7 +26,7 @@ theorem tokenizeAux_cons (f pos : Nat) (c : Char) (rest : List Char) :
   simp only [stepLen, stepErrs]
   cases h : (lexOne (c :: rest)).tok <;> simp [List.append_assoc]
 
-theorem tokenizeAux_nil (f pos : Nat) : tokenizeAux (f + 1) pos [] = ([⟨.eof, pos, pos + 1⟩], []) := by
+theorem tokenizeAux_nil (f pos : Nat) : tokenizeAux (f + 1) pos [] = ([⟨.eof, pos, pos⟩], []) := by
   rw [tokenizeAux]
 
 /-- any fuel above the input length gives the same answer -/
